@@ -265,7 +265,7 @@ func (s *Server) Run() error {
 			continue
 		}
 
-		s.handleMessage(msg)
+		s.safeHandleMessage(msg)
 
 		// Exit after shutdown
 		if s.shutdown {
@@ -305,6 +305,10 @@ func (s *Server) readMessage() (json.RawMessage, error) {
 		return nil, fmt.Errorf("missing Content-Length header")
 	}
 
+	if contentLength < 0 {
+		return nil, fmt.Errorf("invalid Content-Length: %d", contentLength)
+	}
+
 	// Validate content length against maximum
 	if contentLength > MaxContentLength {
 		return nil, fmt.Errorf("content length %d exceeds maximum allowed %d", contentLength, MaxContentLength)
@@ -318,6 +322,24 @@ func (s *Server) readMessage() (json.RawMessage, error) {
 	}
 
 	return json.RawMessage(content), nil
+}
+
+// safeHandleMessage processes one message and keeps the server alive if the
+// handler panics: the panic is logged and, when the message was a request, it is
+// answered with an internal error so the client does not wait forever.
+func (s *Server) safeHandleMessage(msg json.RawMessage) {
+	defer func() {
+		if r := recover(); r != nil {
+			s.logger.Printf("panic while handling message: %v", r)
+			var partial struct {
+				ID interface{} `json:"id"`
+			}
+			if err := json.Unmarshal(msg, &partial); err == nil && partial.ID != nil {
+				s.sendError(partial.ID, InternalError, fmt.Sprintf("internal error: %v", r))
+			}
+		}
+	}()
+	s.handleMessage(msg)
 }
 
 // handleMessage processes a single message
